@@ -61,6 +61,17 @@ _arith('uint', 'u64')
 ARITH_TWINS = [k for k in KANI if k.startswith('arith_')]
 
 PROPS = {
+    'C07': dict(
+        units=['macros'],
+        not_covered=['the per-element evaluation itself (spec_eval is the abstract interpreter; its own contracts are unit interp)',
+                     'that the fixed key order is the lexicographic one (sorted_keys is a 3-line std sort, known here by contract only)'],
+        assumptions=['CelValue::clone is the identity on the abstract value (derive(Clone))', 'Vec<CelValue> -> CelValue::List conversion is element-wise identity (std blanket Into)'],
+    ),
+    'C08': dict(
+        units=['macros'],
+        not_covered=['where Binding/Attribute errors originate (InterpStack::pop, index/access): unit interp / value_coll'],
+        assumptions=[],
+    ),
     'C04': dict(
         units=['value_cmp', 'value_arith'],
         not_covered=['double comparisons in Verus (result kind only; Kani float twins decide the order laws)',
